@@ -6,8 +6,12 @@
  * Options: NODRAIN  = instances are destroyed while populated (used with --memory-leak-check)
  *          NOTHROW  = peek/evict_object on an empty instance are excluded (the engine's exception model never frees the
  *                     exception object, which would be reported by --memory-leak-check)
- *          ONE_INSTANCE = every operation targets instance 0 (instance 1 is only reached through swap) */
+ * WHICH = bit i selects the instance operation i is applied to (concrete per cell: a symbolic choice between the two
+ *         objects makes every access a two-way pointer case split, measured 70x slower) */
 #include "harness.h"
+#ifndef WHICH
+#define WHICH 0
+#endif
 #ifndef NKEYS
 #define NKEYS 3
 #endif
@@ -44,11 +48,7 @@ void harness(void) {
   int64_t out[5 * K + 1], drain[2 * (DRAIN_MAX + 1)];
   for (int i = 0; i < K; i++) {
     op[i] = (uint8_t)in_range(0, S_NOPS - 1);
-#ifdef ONE_INSTANCE
-    which[i] = 0;
-#else
-    which[i] = in_bool();
-#endif
+    which[i] = (uint8_t)((WHICH >> i) & 1); /* concrete per cell */
     key[i] = (uint8_t)in_range(0, NKEYS - 1);
     sz[i] = (uint8_t)in_range(0, 2);
   }
